@@ -1,59 +1,547 @@
-"""C05 — lifted jit/remat/... act like the plain code (first version)."""
+"""C05 — lifted jit / remat / checkpoint / cond / switch / while_loop / identity
+map_variables act like the plain code (DESIGN §4 C05).
+
+Differential oracle: the same DSL program with the transform removed (plain
+child / Python `if` / Python `while`), executed by the same flax tree.
+Families
+  A  value clause, class form: every body x wrapper x transform, init + apply under
+     a filter alphabet (trees compared up to the transformed class' auto name)
+  B  lifting filters (variables= / rngs=): equal to plain when everything the body
+     touches is lifted, otherwise must raise
+  C  decorator (method) form
+  D  cond / switch / while_loop vs Python control flow
+  R  rng clause: remat keys == plain keys; jit keys deterministic, distinct, and
+     draws after the jitted call unchanged
+  H  jit call histories (state-space search over the trace cache): after any
+     sequence of calls with changed attributes / variable structure /
+     mutability / rng presence every call still equals the plain program
+"""
 from __future__ import annotations
+
+import itertools
+import os
 
 import numpy as np
 
 from mc.engine import core
-from mc.engine.canon import canon_tree, np_tree
+from mc.engine.canon import canon_tree, np_tree, jsonable
 from mc.models import dsl
 
 PROPERTY = 'C05'
 LEVEL = 'model_checking'
-RULE = 'DSL programs with one transformed child vs the plain program'
-ASSUMPTIONS = []
+RULE = ('DSL programs with one designated child wrapped in a lifted transform, all bodies up to '
+        'the tier size x wrappers (auto/explicit name, called 1-2x, pre/post statements) x '
+        'transforms (jit, remat, checkpoint, identity map_variables with 3 mapped filters, '
+        'decorator forms, cond x 2 predicates, switch x 3 indices, while_loop x trip counts 0-3) x '
+        'lifting filters x outer mutable filters, init and apply; plus BFS over call histories of '
+        'one jitted class (states = canonical (variables, last call kind); transitions = calls '
+        'compared with the plain program). Non-trivial: body has a mutable variable or the '
+        'history contains a change of attribute / structure / mutability; distinct by case text')
+ASSUMPTIONS = [
+  'value clauses for transforms other than remat use bodies that draw no rng inside the '
+  'transformed part (the statement promises identical draws only for remat)',
+  'cond / switch / while_loop children are created once before the control flow when '
+  'initializing (documented: variables cannot be created in one branch only)',
+  'map_variables(mutable=False) is exercised with read-only bodies plus an explicit forced write',
+]
 
-BODIES = [(('param', 'a', 's'),), (('param', 'a', 'v'), ('var', 'cnt', 'a', 'count')),
-          (('var', 'stats', 'a', 'acc'), ('param', 'b', 's'))]
+BODY_LEAVES = [('param', 'a', 's'), ('param', 'a', 'v'), ('var', 'stats', 'a', 'acc'),
+               ('var', 'cnt', 'a', 'count'), ('var', 'cnt', 'b', 'force'), ('sow', 'aux', 'a')]
+FILTERS = [False, True, 'cnt', ['stats', 'cnt'], {'deny': 'params'}, ['aux', 'cnt']]
+MAPPED = ['params', ['params', 'stats'], True]
+
+
+def bounds(tier):
+  q = tier == 'quick'
+  return dict(body_statements=2 if q else 3, history_len=2 if q else 3,
+              filters=len(FILTERS), while_trips=[0, 1, 2, 3], switch_indices=[0, 1, 2])
+
+
+def _bodies(tier, rng=False):
+  n = 2 if tier == 'quick' else 3
+  leaves = list(BODY_LEAVES)
+  if rng:
+    leaves.append(('rng', 'dropout'))
+  ds = dsl.defs_upto(n, 1, leaves, variants=[('B', None, 1)])
+  if tier == 'quick':
+    ds = [d for d in ds if dsl.size(d) <= 2]
+  return ds
+
+
+WRAPS = [  # (name, times, pre, post)
+  (None, 1, (), ()),
+  ('c', 2, (), ()),
+  (None, 2, (('param', 'b', 's'),), (('rng', 'dropout'),)),
+  ('c', 1, (('child', 'B', (('var', 'cnt', 'a', 'count'),), None, 1),), (('param', 'b', 's'),)),
+]
+
+
+def _transforms_A():
+  ts = ['jit@A', 'remat@A', 'checkpoint@A']
+  for mp in MAPPED:
+    ts.append(dsl.tcls('mapv', 'A', mapped=mp, init='auto', mutable=True))
+  return ts
 
 
 def units(tier, seed):
-  return [dict(t=t, body=dsl.tolist(b), name=n) for t in ('jit', 'remat', 'checkpoint')
-          for b in BODIES for n in (None, 'c')]
-
-
-def _rename(tree, t):
-  """strip the transformed-class prefix from auto names (learned by probing)"""
-  return tree
+  us = []
+  bodies = [dsl.tolist(b) for b in _bodies(tier)]
+  step = 6
+  for t in _transforms_A() + ['AJ', 'AR']:
+    for i in range(0, len(bodies), step):
+      us.append(dict(kind='A', t=t, bodies=bodies[i:i + step]))
+  rb = [dsl.tolist(b) for b in _bodies(tier, rng=True)
+        if dsl.has(b, lambda st: st[0] == 'rng')]
+  for t in ('jit@A', 'remat@A', 'checkpoint@A', 'AJ', 'AR'):
+    for i in range(0, len(rb), 8):
+      us.append(dict(kind='R', t=t, bodies=rb[i:i + 8]))
+  for t in ('jit', 'remat'):
+    for v in ('params', ['params', 'stats'], {'deny': 'cnt'}):
+      for r in (True, 'dropout', False):
+        us.append(dict(kind='B', t=t, variables=v, rngs=r))
+  small = [dsl.tolist(b) for b in _bodies('quick') if not dsl.has(b, lambda st: st[0] == 'child')]
+  for i in range(0, len(small), 4):
+    us.append(dict(kind='D', bodies=small[i:i + 4]))
+  for mp in MAPPED:
+    us.append(dict(kind='M', mapped=mp))
+  L = bounds(tier)['history_len']
+  for first in range(len(CALL_KINDS)):
+    us.append(dict(kind='H', first=first, maxlen=L))
+  return us
 
 
 def run_unit(unit):
-  import jax
-  import jax.numpy as jnp
   res = core.new_result()
-  body = dsl.fromlist(unit['body'])
-  dT = (('param', 'b', 's'), ('child', f"{unit['t']}:A", body, unit['name'], 1))
+  {'A': _fam_A, 'R': _fam_R, 'B': _fam_B, 'D': _fam_D, 'M': _fam_M, 'H': _fam_H}[unit['kind']](
+    res, unit)
+  return res
+
+
+# ----------------------------------------------------------------------------
+
+
+def _kind(e):
+  from mc.checks.c01 import _err_kind
+  return _err_kind(e)
+
+
+def _X():
+  import jax.numpy as jnp
+  seed = int(os.environ.get('VERIF_SEED', '0'))
+  return jnp.asarray(np.array([1., 2.], np.float32) + (seed % 2))
+
+
+def _rngs():
+  import jax
+  return {'params': jax.random.key(1), 'dropout': jax.random.key(2)}
+
+
+def _run(fn):
+  try:
+    return ('ok', fn())
+  except Exception as e:  # noqa
+    return ('err', _kind(e), f'{type(e).__name__}: {str(e)[:200]}')
+
+
+def _mapv_init_stateful(d):
+  import json
+  for st in d:
+    if st[0] == 'child' and st[1].startswith('mapv['):
+      kw = json.loads(st[1][len('mapv['):st[1].rindex(']@')])
+      if kw.get('init') in ('auto', True):
+        mapped = kw.get('mapped', 'params')
+        if dsl.has(st[2], lambda b: (b[0] == 'sow' or (b[0] == 'var' and b[3] in
+                                                        ('count', 'acc', 'force')))
+                   and dsl.in_filter_ref(mapped, b[1])):
+          return True
+  return False
+
+
+def _rename(tree, tkey, reverse=False):
+  """Map auto names of the transformed class back to the plain class' auto names."""
+  if '@' not in tkey and tkey not in ('AJ', 'AR'):
+    return tree
+  tname = dsl.CLS[tkey if '"init": "auto"' not in tkey
+                  else tkey.replace('"init": "auto"', '"init": true')].__name__
+  bname = dsl.CLS[{'AJ': 'A', 'AR': 'A'}.get(dsl.base_cls(tkey), dsl.base_cls(tkey))].__name__
+  table = {dsl.autoname(tname, i): dsl.autoname(bname, i) for i in range(4)}
+  if reverse:
+    table = {v: k for k, v in table.items()}
+
+  def go(t):
+    if isinstance(t, dict):
+      return {table.get(k, k): go(v) for k, v in t.items()}
+    return t
+  return go(tree)
+
+
+def _compare(res, tag, case, key, T, P, tkey=None, rename_updates=True):
+  """T / P are ('ok', value) | ('err', kind, text).  Values are (out, vars)."""
+  if P[0] == 'err':
+    if T[0] != 'err':
+      core.violation(res, f'{tag}-should-raise|{key}',
+                     f'plain program raises {P[1]} ({P[2]}), transformed program returned', case)
+    elif T[1] != P[1]:
+      core.violation(res, f'{tag}-error-kind|{key}',
+                     f'plain program raises {P[1]}, transformed raises {T[1]} ({T[2]})', case)
+    core.outcome(res, f'{tag}:raises-' + P[1])
+    return False
+  if T[0] == 'err':
+    core.violation(res, f'{tag}-raises|{key}',
+                   f'transformed program raised {T[2]} where the plain program succeeds', case)
+    return False
+  (oT, vT), (oP, vP) = T[1], P[1]
+  if canon_tree(np_tree(oT)) != canon_tree(np_tree(oP)):
+    core.violation(res, f'{tag}-out|{key}', 'output differs from the plain program', case,
+                   observed=jsonable(oT), expected=jsonable(oP))
+  if vT is not None or vP is not None:
+    vTr = _rename(np_tree(vT), tkey) if tkey else np_tree(vT)
+    if canon_tree(vTr) != canon_tree(np_tree(vP)):
+      core.violation(res, f'{tag}-vars|{key}',
+                     'variables / updated collections differ from the plain program', case,
+                     observed=jsonable(vTr), expected=jsonable(vP))
+  core.outcome(res, f'{tag}:equal')
+  return True
+
+
+def _init_apply(res, fam, tkey, dT, case_extra=None, filters=FILTERS, apply_rngs=True):
+  """init + apply under every filter, transformed vs plain."""
+  import jax
   dP = dsl.strip_transforms(dT)
-  x = jnp.asarray([1., 2.], jnp.float32)
-  key = f"{unit['t']}|{body!r}|{unit['name']}"
-  rngs = {'params': jax.random.key(1)}
+  x = _X()
+  rngs = _rngs()
+  key = f'{dT!r}'
+  case = dict(program=dsl.tolist(dT), plain=dsl.tolist(dP), **(case_extra or {}))
+  mT, mP = dsl.make('A', dT), dsl.make('A', dP)
   res['evals'] += 2
   res['transitions'] += 1
+  T = _run(lambda: mT.init_with_output(rngs, x))
+  P = _run(lambda: mP.init_with_output(rngs, x))
+  tag = f'{fam}-init'
+  if _mapv_init_stateful(dT):
+    # identified finding: map_variables(init=True) runs the body twice while initializing;
+    # visible when the body updates a variable of a mapped collection
+    tag = 'mapv-init-stateful'
+  ok = _compare(res, tag, case, key, T, P, tkey)
+  if P[0] != 'ok' or T[0] != 'ok':
+    return
+  # apply is compared from the same state on both sides (the plain init's variables, with
+  # the transformed class' auto names), so that an init difference does not cascade
+  vP = P[1][1]
+  vT = _rename(np_tree(vP), tkey, reverse=True) if tkey else vP
+  import jax.numpy as jnp
+  vT = jax.tree.map(jnp.asarray, vT)
+  ar = {'dropout': rngs['dropout']} if apply_rngs else None
+  for f in filters:
+    ff = dsl.to_flax_filter(f)
+    res['evals'] += 2
+    res['transitions'] += 1
+
+    def ap(m, v):
+      r = m.apply(v, x, rngs=ar, mutable=ff)
+      return (r, None) if f is False else r
+    _compare(res, f'{fam}-apply[{f!r}]', case, key, _run(lambda: ap(mT, vT)),
+             _run(lambda: ap(mP, vP)), tkey)
   res['states'] += 1
-  oP, vP = dsl.make('A', dP).init_with_output(rngs, x)
-  try:
-    oT, vT = dsl.make('A', dT).init_with_output(rngs, x)
-  except Exception as e:  # noqa
-    core.violation(res, 'raises|' + key, f"nn.{unit['t']} program raised {type(e).__name__}: "
-                   f'{str(e)[:200]} where the plain program succeeds', unit)
-    return res
-  # compare modulo the auto-generated name of the transformed class
-  def leaves(v):
-    return sorted((len(p), canon_tree(l)) for p, l in
-                  __import__('mc.engine.canon', fromlist=['flat_paths']).flat_paths(np_tree(v)).items())
-  if canon_tree(np.asarray(oP['x'])) != canon_tree(np.asarray(oT['x'])) or leaves(vP) != leaves(vT):
-    core.violation(res, 'differs|' + key, 'transformed program differs from plain', unit,
-                   observed=np_tree(vT), expected=np_tree(vP))
-  res['nontrivial'].append(core.h(key))
-  core.outcome(res, 'ok')
-  res['samples'].append(unit)
-  return res
+
+
+def _wrap(t, body, w):
+  name, times, pre, post = w
+  return tuple(pre) + (('child', t, body, name, times),) + tuple(post)
+
+
+def _fam_A(res, unit):
+  t = unit['t']
+  for bl in unit['bodies']:
+    body = dsl.fromlist(bl)
+    for w in WRAPS:
+      dT = _wrap(t, body, w)
+      _init_apply(res, 'A', t, dT)
+      if dsl.has(body, lambda st: st[0] == 'var'):
+        res['nontrivial'].append(core.h(['A', t, bl, w[0], w[1]]))
+  res['samples'].append(dict(family='A', transform=t, body=unit['bodies'][0]))
+
+
+def _fam_R(res, unit):
+  """rng clause.  Explicit child names so that the logical position is the same
+  in the transformed and the plain program."""
+  import jax
+  t = unit['t']
+  x = _X()
+  rngs = _rngs()
+  for bl in unit['bodies']:
+    body = dsl.fromlist(bl)
+    for times in (1, 2):
+      dT = (('rng', 'dropout'), ('child', t, body, 'c', times), ('rng', 'dropout'))
+      dP = dsl.strip_transforms(dT)
+      key = f'{t}|{body!r}|{times}'
+      case = dict(transform=t, program=dsl.tolist(dT))
+      res['evals'] += 3
+      res['transitions'] += 1
+      oT, vT = dsl.make('A', dT).init_with_output(rngs, x)
+      oT2, _ = dsl.make('A', dT).init_with_output(rngs, x)
+      oP, vP = dsl.make('A', dP).init_with_output(rngs, x)
+      kT = [tuple(np.asarray(k).tolist()) for k in oT['k']]
+      kT2 = [tuple(np.asarray(k).tolist()) for k in oT2['k']]
+      kP = [tuple(np.asarray(k).tolist()) for k in oP['k']]
+      if kT != kT2:
+        core.violation(res, f'R-nondet|{key}', 'rng keys differ between two identical runs', case)
+      if len(set(kT)) != len(kT):
+        core.violation(res, f'R-reuse|{key}', 'a key was handed out twice within one run', case,
+                       observed=kT)
+      if len(kT) != len(kP):
+        core.violation(res, f'R-count|{key}', 'number of draws differs from the plain program',
+                       case)
+        continue
+      if kT[0] != kP[0] or kT[-1] != kP[-1]:
+        core.violation(res, f'R-outer|{key}',
+                       'draws before / after the transformed call differ from the plain program '
+                       '(outer rng counters were not restored)', case, observed=kT, expected=kP)
+      if t.startswith(('remat', 'checkpoint')) or t == 'AR':
+        if kT != kP:
+          core.violation(res, f'R-remat-keys|{key}',
+                         'keys drawn under remat differ from the plain program', case,
+                         observed=kT, expected=kP)
+        if canon_tree(np_tree(oT)) != canon_tree(np_tree(oP)):
+          core.violation(res, f'R-remat-out|{key}', 'remat output differs from plain', case)
+      # apply: same clauses
+      res['evals'] += 2
+      aT = dsl.make('A', dT).apply(vT, x, rngs={'dropout': rngs['dropout']}, mutable=['cnt'])[0]
+      aP = dsl.make('A', dP).apply(vP, x, rngs={'dropout': rngs['dropout']}, mutable=['cnt'])[0]
+      kaT = [tuple(np.asarray(k).tolist()) for k in aT['k']]
+      kaP = [tuple(np.asarray(k).tolist()) for k in aP['k']]
+      if len(set(kaT)) != len(kaT) or kaT[0] != kaP[0] or kaT[-1] != kaP[-1]:
+        core.violation(res, f'R-apply|{key}', 'apply: key reuse or outer draws changed', case,
+                       observed=kaT, expected=kaP)
+      if (t.startswith(('remat', 'checkpoint')) or t == 'AR') and kaT != kaP:
+        core.violation(res, f'R-apply-remat|{key}', 'apply: remat keys differ from plain', case)
+      core.outcome(res, f'R:{"same" if kT == kP else "differ"}-inner-keys')
+      res['nontrivial'].append(core.h(['R', t, bl, times]))
+      res['states'] += 1
+  res['samples'].append(dict(family='R', transform=t, body=unit['bodies'][0]))
+
+
+def _uses(body):
+  cols, streams = set(), set()
+
+  def go(d):
+    for st in d:
+      if st[0] == 'param':
+        cols.add('params')
+      elif st[0] in ('var', 'sow'):
+        cols.add(st[1])
+      elif st[0] == 'perturb':
+        cols.add('perturbations')
+      elif st[0] == 'rng':
+        streams.add(st[1])
+      elif st[0] == 'child':
+        go(st[2])
+  go(body)
+  return cols, streams
+
+
+def _fam_B(res, unit):
+  """variables= / rngs= lifting filters."""
+  t = dsl.tcls(unit['t'], 'A', variables=unit['variables'], rngs=unit['rngs'])
+  vf, rf = unit['variables'], unit['rngs']
+  x = _X()
+  rngs = _rngs()
+  for body in _bodies('quick', rng=True):
+    cols, streams = _uses(body)
+    lifted_ok = all(dsl.in_filter_ref(vf, c) for c in cols)
+    if dsl.has(body, lambda st: st[0] == 'sow' and not dsl.in_filter_ref(vf, st[1])):
+      continue   # sow into a collection that is not lifted is a documented silent no-op
+    for name in (None, 'c'):
+      dT = (('param', 'b', 's'), ('child', t, body, name, 1), ('var', 'cnt', 'z', 'count'))
+      dP = dsl.strip_transforms(dT)
+      key = f'{t}|{body!r}|{name}'
+      case = dict(transform=t, program=dsl.tolist(dT))
+      need_init = set(streams) | ({'params'} if 'params' in cols else set())
+      rng_ok_init = all(dsl.in_filter_ref(rf, s) for s in need_init)
+      rng_ok_apply = all(dsl.in_filter_ref(rf, s) for s in streams)
+      mT, mP = dsl.make('A', dT), dsl.make('A', dP)
+      res['evals'] += 2
+      res['transitions'] += 1
+      T = _run(lambda: mT.init_with_output(rngs, x))
+      P = _run(lambda: mP.init_with_output(rngs, x))
+      if P[0] != 'ok':
+        continue
+      # keys are addressed by path: with an auto-generated name the transformed class sits
+      # at another path, so inner draws are only comparable under an explicit name
+      has_inner_rng = bool(streams)
+      cmp_values = (not has_inner_rng) or (unit['t'] == 'remat' and name is not None)
+      if lifted_ok and rng_ok_init:
+        if T[0] != 'ok':
+          core.violation(res, f'B-init-raises|{key}',
+                         f'everything the body touches is lifted, but init raised {T[2]}', case)
+          continue
+        if cmp_values:
+          _compare(res, 'B-init', case, key, T, P, t)
+      else:
+        if T[0] == 'ok':
+          core.violation(res, f'B-init-silent|{key}',
+                         'the body touches a collection / rng stream that is not lifted, yet '
+                         'init returned (stale or invented data)', case)
+        core.outcome(res, 'B:init-raises-not-lifted')
+        continue
+      vT, vP = T[1][1], P[1][1]
+      for f in (False, ['cnt'], ['stats', 'cnt', 'aux']):
+        ff = dsl.to_flax_filter(f)
+        res['evals'] += 2
+        res['transitions'] += 1
+
+        def ap(m, v):
+          r = m.apply(v, x, rngs={'dropout': rngs['dropout']}, mutable=ff)
+          return (r, None) if f is False else r
+        Ta, Pa = _run(lambda: ap(mT, vT)), _run(lambda: ap(mP, vP))
+        if rng_ok_apply:
+          if cmp_values:
+            _compare(res, f'B-apply[{f!r}]', case, key, Ta, Pa, t)
+          elif (Ta[0] == 'ok') != (Pa[0] == 'ok'):
+            core.violation(res, f'B-apply-outcome|{key}|{f!r}',
+                           f'transformed: {Ta[0]}, plain: {Pa[0]}', case)
+        else:
+          if Ta[0] == 'ok' and Pa[0] == 'ok':
+            core.violation(res, f'B-apply-silent|{key}|{f!r}',
+                           'the body draws from an rng stream that is not lifted, yet apply '
+                           'returned', case)
+      res['nontrivial'].append(core.h(['B', key]))
+      res['states'] += 1
+  res['samples'].append(dict(family='B', transform=t))
+
+
+def _fam_D(res, unit):
+  for bl in unit['bodies']:
+    body = dsl.fromlist(bl)
+    stmts = [('cond', True, True, 'A', body, 'c'), ('cond', True, False, 'A', body, 'c')]
+    stmts += [('switch', True, i, 'A', body, 'c') for i in range(3)]
+    cols = sorted(_uses(body)[0] - {'params'})
+    if not dsl.has(body, lambda st: st[0] == 'sow'):
+      # (sow grows a tuple: not a fixed carry structure, rejected by jax.lax.while_loop)
+      for trips in range(4):
+        stmts.append(('while', True, trips, 'A', body, 'c', tuple(cols)))
+    for st in stmts:
+      for pre, post in (((), ()), ((('param', 'b', 's'),), (('var', 'cnt', 'z', 'count'),))):
+        dT = tuple(pre) + (st,) + tuple(post)
+        fl = FILTERS
+        if st[0] == 'while':
+          # carried collections must be mutable (jax.lax.while_loop needs the carry
+          # structure to be preserved): only filters that cover every carried collection
+          fl = [f for f in (True, ['stats', 'cnt'], {'deny': 'params'})
+                if all(dsl.in_filter_ref(f, c) for c in st[6])]
+          if not st[6]:
+            fl = FILTERS
+        _init_apply(res, f'D-{st[0]}', None, dT, filters=fl)
+        res['nontrivial'].append(core.h(['D', st[0], st[2], bl, bool(pre)]))
+  res['samples'].append(dict(family='D', body=unit['bodies'][0]))
+
+
+def _fam_M(res, unit):
+  """identity map_variables with mutable=False: read-only bodies equal plain; a
+  forced write to a mapped (immutable) collection raises; constant init flags."""
+  mp = unit['mapped']
+  ro_bodies = [(('param', 'a', 's'),), (('param', 'a', 'v'), ('var', 'stats', 'a', 'read')),
+               (('var', 'stats', 'a', 'read'), ('var', 'cnt', 'a', 'count'))]
+  for body in ro_bodies:
+    for init in ('auto', True):
+      t = dsl.tcls('mapv', 'A', mapped=mp, init=init, mutable=False)
+      for w in WRAPS[:2]:
+        dT = _wrap(t, body, w)
+        mapped_cols = [c for c in ('params', 'stats', 'cnt') if dsl.in_filter_ref(mp, c)]
+        writes_mapped = 'cnt' in mapped_cols and dsl.has(body, lambda st: st[0] == 'var'
+                                                         and st[3] in ('count', 'acc', 'force'))
+        if writes_mapped:
+          continue
+        if init is True:
+          # constant init=True is only meaningful while initializing: compare init only
+          _init_apply(res, 'M-const-init', t, dT, filters=[])
+        else:
+          _init_apply(res, 'M', t, dT)
+        res['nontrivial'].append(core.h(['M', mp, body, init, w[0]]))
+  # forced write into a mapped immutable collection must raise, plain code raises too
+  # when the collection is immutable outside
+  import jax
+  x, rngs = _X(), _rngs()
+  body = (('var', 'stats', 'a', 'force'),)
+  if dsl.in_filter_ref(mp, 'stats'):
+    t = dsl.tcls('mapv', 'A', mapped=mp, init='auto', mutable=False)
+    dT = (('child', t, body, 'c', 1),)
+    v = dsl.make('A', dsl.strip_transforms(dT)).init(rngs, x)
+    res['evals'] += 1
+    r = _run(lambda: dsl.make('A', dT).apply(v, x, mutable=['stats']))
+    if r[0] == 'ok':
+      core.violation(res, f'M-write-immutable|{mp!r}',
+                     'a write inside map_variables(mutable=False) to a mapped collection took '
+                     'effect instead of raising', dict(mapped=mp))
+    core.outcome(res, 'M:forced-write-raises')
+  res['samples'].append(dict(family='M', mapped=mp))
+
+
+# ------------------------------------------------------------------ histories
+
+H_BODIES = [
+  (('param', 'a', 's'), ('var', 'cnt', 'a', 'count')),
+  (('param', 'a', 's'), ('var', 'cnt', 'a', 'count'), ('param', 'b', 's')),   # structure change
+  (('var', 'cnt', 'a', 'count'), ('param', 'a', 's')),                        # same vars, other code
+]
+CALL_KINDS = [(b, mut, rng) for b in range(len(H_BODIES)) for mut in (False, ['cnt'])
+              for rng in (True, False)]
+
+
+def _fam_H(res, unit):
+  """BFS over call histories of ONE jitted class object (its trace cache persists
+  across calls): every call must equal the plain program in the same state."""
+  import jax
+  x, rngs = _X(), _rngs()
+  tk = 'jit@A'
+  inits = {}
+  for bi, body in enumerate(H_BODIES):
+    dT = (('child', tk, body, 'c', 1),)
+    vP = dsl.make('A', dsl.strip_transforms(dT)).init(rngs, x)
+    inits[bi] = np_tree(vP)
+  seen = set()
+  frontier = [((unit['first'],), )]
+  hist_list = []
+  for L in range(1, unit['maxlen'] + 1):
+    for rest in itertools.product(range(len(CALL_KINDS)), repeat=L - 1):
+      hist_list.append((unit['first'],) + rest)
+  for hist in hist_list:
+    # state: variables per body (updated when mutable), threaded through the history
+    state = {bi: inits[bi] for bi in inits}
+    n0 = len(dsl.TRACES)
+    for pos, ci in enumerate(hist):
+      bi, mut, use_rng = CALL_KINDS[ci]
+      body = H_BODIES[bi]
+      dT = (('child', tk, body, 'c', 1),)
+      dP = dsl.strip_transforms(dT)
+      ar = {'dropout': rngs['dropout']} if use_rng else None
+      v = jax.tree.map(np.asarray, state[bi])
+      res['evals'] += 2
+      res['transitions'] += 1
+      t0 = len(dsl.TRACES)
+
+      def ap(d):
+        r = dsl.make('A', d).apply(v, x, rngs=ar, mutable=mut)
+        return (r, None) if mut is False else r
+      T = _run(lambda: ap(dT))
+      traced = sum(1 for c, _ in dsl.TRACES[t0:] if c == dsl.CLS[tk].__name__)
+      P = _run(lambda: ap(dP))
+      key = f'H|{[CALL_KINDS[c] for c in hist[:pos + 1]]!r}'
+      case = dict(history=[list(map(jsonable, CALL_KINDS[c])) for c in hist[:pos + 1]])
+      _compare(res, 'H', case, key, T, P, None)
+      core.outcome(res, 'H:cache-' + ('miss' if traced else 'hit'))
+      if P[0] == 'ok' and mut is not False:
+        new = dict(state[bi])
+        new.update(np_tree(P[1][1]))
+        state[bi] = new
+      c = (canon_tree(state), ci)
+      if c not in seen:
+        seen.add(c)
+        res['states'] += 1
+    changes = len({CALL_KINDS[c][0] for c in hist}) > 1 or len({repr(CALL_KINDS[c][1])
+                                                                 for c in hist}) > 1
+    if changes:
+      res['nontrivial'].append(core.h(['H', hist]))
+  del dsl.TRACES[:]
+  res['samples'].append(dict(family='H', history=[list(map(jsonable, CALL_KINDS[c]))
+                                                  for c in hist_list[-1]]))
